@@ -30,7 +30,10 @@ func cmdSeq(args []string) int {
 	vetoP := fs.Float64("vetop", 0.5, "probability a call carries vetoes")
 	nestP := fs.Float64("nestp", 0.0, "probability a call carries handler-issued mutations")
 	backoffP := fs.Float64("backoffp", 0.0, "probability a history contains a stretch of machine backoff")
+	formsP := fs.Float64("forms", 0.0, "probability a binding is bound as a struct (HandlersBind) instead of maps")
 	fs.Parse(args)
+	// the binding forms have their own stream: the cases are the same with and without them
+	rf := rand.New(rand.NewSource(*seed ^ 0x5f0f))
 	gen.NestP = *nestP
 	gen.BackoffP = *backoffP
 
@@ -83,6 +86,11 @@ func cmdSeq(args []string) int {
 		default:
 			c.On = true
 			c.Binds = append(c.Binds, gen.RandBinding(r, index, 0.6), gen.RandBinding(r, index, 0.5))
+		}
+		if *formsP > 0 && !*faults {
+			for bi := range c.Binds {
+				c.Binds[bi].Form = gen.PickForm(rf, index, c.Binds[bi], *formsP)
+			}
 		}
 		if *faults {
 			if !c.On {
